@@ -72,6 +72,9 @@ CASES = [
     ("F-M6-save-relativises-the-recording-paths-in-place", "mutant", [
         (A + "recording.py", "            path = Path(obj.path).relative_to(self.audio_dir)\n",
          "            path = Path(obj.path).relative_to(self.audio_dir)\n            obj.path = path\n")]),
+    ("F-M6b-sequence-annotation-tags-sorted-in-place-before-writing", "mutant", [
+        (A + "sequence_annotation.py", "        return SequenceAnnotationObject(\n            sequence=self.sequence_adapter.to_aoef(obj.sequence).uuid,\n",
+         "        obj.tags.sort(key=lambda t: (t.term.label, t.value))\n        return SequenceAnnotationObject(\n            sequence=self.sequence_adapter.to_aoef(obj.sequence).uuid,\n")]),
     ("F-M7-collection-adapters-reused-per-audio-dir", "mutant", [     # stores survive between saves: same uuid -> stale record
         (A + "__init__.py", "    for _, data_cls, adapter_cls in ADAPTERS:\n        if isinstance(obj, data_cls):\n            adapter = adapter_cls(audio_dir=audio_dir)\n",
          "    for _, data_cls, adapter_cls in ADAPTERS:\n        if isinstance(obj, data_cls):\n"
@@ -101,8 +104,8 @@ CASES = [
     ("F-M12-sound-event-prediction-keeps-best-score-per-tag", "mutant", [
         (A + "sound_event_prediction.py",
          "                [\n                    (tag.id, predicted_tag.score)\n                    for predicted_tag in obj.tags\n                    if (tag := self.tag_adapter.to_aoef(predicted_tag.tag))\n                    is not None\n                ]\n",
-         "                list(\n                    {\n                        tag.id: max(predicted_tag.score, 0.0)\n                        for predicted_tag in sorted(obj.tags, key=lambda t: t.score)\n"
-         "                        if (tag := self.tag_adapter.to_aoef(predicted_tag.tag))\n                        is not None\n                    }.items()\n                )\n")]),
+         "                list(\n                    {\n                        self.tag_adapter.to_aoef(predicted_tag.tag).id: max(\n                            p.score for p in obj.tags if p.tag == predicted_tag.tag\n                        )\n"
+         "                        for predicted_tag in obj.tags\n                    }.items()\n                )\n")]),
     ("F-M13-task-keeps-one-badge-per-state-and-owner", "mutant", [
         (A + "annotation_task.py", "                    for badge in obj.status_badges\n                ]\n                if obj.status_badges",
          "                    for badge in {\n                        (b.state, b.owner.uuid if b.owner else None, b.created_on): b\n                        for b in obj.status_badges\n                    }.values()\n                ]\n                if obj.status_badges")]),
